@@ -48,8 +48,10 @@ META = {
     'assumptions': ['SafeProgs excludes create and expireAll in the same configuration even when they are in one thread sequentially (safe, but outside the theorem; covered by the replay only)',
                     'with doCache=False the map clauses are proved for programs without create only (created() then writes expiredCache lock-free); creates in that mode are covered by the replay',
                     'cullFraction >= 1 (the configuration constant is 2; 0 makes range() raise ValueError)',
-                    'the attribute load `self.cache` and the dict operation on it form one action (true for CPython 3.12: '
-                    'no eval-breaker check between LOAD_ATTR and the subscript)'],
+                    'the attribute load of self.cache is a scheduling point of its own unless the loading thread holds the cache '
+                    'lock (the rebinding `self.cache = {}` needs that lock, so such a load commutes with everything); '
+                    'self.expiredCache is never rebound by the code in scope (the harness fails loudly if it is), so its '
+                    'loads are not scheduling points'],
     'exhaustive': False,
 }
 
@@ -832,15 +834,18 @@ PAIR_OPS = [('g', 1), ('g', 4), ('g', 3), ('g', 9), ('c', 7), ('x', 1), ('A',), 
 
 # the known findings, replayed on every run (schedules found by experiment; effective grants only)
 W_RT = dict(init=WARM, progs=[[('c', 7)], [('A',)]],          # 1: acquire, first next() | 0: whole create |
-            sched=[1, 1, 0, 0, 0, 0, 0, 0, 1, 1, 1],          # 1: weak.set, next() -> RuntimeError, release
+            sched=[1, 1, 0, 0, 0, 0, 0, 0, 0, 1, 1, 1],       # 1: weak.set, next() -> RuntimeError, release
             key=KEY_RT)
 W_LOST = dict(init=WARM, progs=[[('c', 7)], [('A',)]],        # 1: up to the next() that ends the loop |
-              sched=[1, 1, 1, 1, 1, 1, 0, 0, 0, 0, 0, 0, 1, 1],   # 0: whole create | 1: self.cache = {}, release
+              sched=[1, 1, 1, 1, 1, 1, 0, 0, 0, 0, 0, 0, 0, 1, 1],   # 0: whole create | 1: self.cache = {}, release
               key=KEY_LOST)
 W_TWO = dict(init=WARM, progs=[[('c', 7)], [('g', 7)]],       # 0: INSERT | 1: whole get(7) (miss, SELECT, put) |
-             sched=[0, 1, 1, 1, 1, 1, 1, 1, 1, 1, 1, 0, 0, 0, 0, 0],   # 0: cache.created, SELECT
+             sched=[0, 1, 1, 1, 1, 1, 1, 1, 1, 1, 1, 1, 0, 0, 0, 0, 0, 0],   # 0: cache.created, SELECT
              key=KEY_TWO)
-WITNESSES = (('W_RT', W_RT), ('W_LOST', W_LOST), ('W_TWO', W_TWO))
+# the finer form of the lost entry: created() loads self.cache before expireAll rebinds it, stores after
+W_LOST_ALIAS = dict(init=WARM, progs=[[('c', 7)], [('A',)]],
+                    sched=[0, 0, 0, 0, 0] + [1] * 8 + [0, 0], key=KEY_LOST)
+WITNESSES = (('W_RT', W_RT), ('W_LOST', W_LOST), ('W_TWO', W_TWO), ('W_LOST_ALIAS', W_LOST_ALIAS))
 
 CORPUS_DIR = os.path.join(os.path.dirname(os.path.dirname(os.path.abspath(__file__))), 'corpus', 'C09')
 
@@ -1047,7 +1052,8 @@ def replay(case):
 
 META['level_text'] = (
     'Lean theorems over the interleaving model Conc (atomic action = one shared access; both doCache modes; weak '
-    'references die with the last strong reference), for EVERY schedule (List Tid), any number of threads, any programs '
+    'references die with the last strong reference; every dict access names the dict object it uses - the current one or '
+    'an abandoned one still aliased after `self.cache = {}`), for EVERY schedule (List Tid), any number of threads, any programs '
     'over get/create/expire/expireAll/cull, any cull parameters, any set of instances pinned by the environment. FULL: '
     'C09_conc_inv (lock held exactly by the thread between a miss and finishPut / inside expire, expireAll, cull; dict keys '
     'unique; every key the holder is about to read/del is present, so no KeyError and no release of a free lock), '
